@@ -1,6 +1,7 @@
 import QProps.C04
 import QProps.C03g
 import QProps.C05h
+import QProofs.MachineCompExch
 /-!
 # C04 — energy bookkeeping over whole histories
 
@@ -342,5 +343,28 @@ theorem evals_history (sim : Sim) (he : sim.ens = .canonical ∨ sim.ens = .hami
     have := ih _ hinv2 g1 (by rw [e2]; exact hns) hrest2
     simp only [runC, countReached]
     omega
+
+/-! ### composite exchange moves (`a + b`, `m * n` over exchange moves) -/
+
+/-- **einv_trial (grand canonical, CompositeExchangeMove)**: after a composite insertion or deletion trial — accepted,
+    rejected or failed — and the logger's read, reported and reference energy are those of the current atoms; for the
+    deletion direction the members share one labelling (what `+`/`*` on one labelling give) -/
+theorem einv_trial_composite_exchange (sim : Sim) (he : sim.ens = .grand) (rs : List Nat) (b : Nat) (v : Bool)
+    (cs : CState) (hinv : InvG cs.m) (heinv : EInv cs)
+    (hdir : cs.m.inp.draw.1 < b ∨
+      (¬ cs.m.inp.draw.1 < b ∧ ∃ L : List Int, (∀ r ∈ rs, (cs.m.obj r).labels = L) ∧ L.length = cs.m.atoms.rows.length)) :
+    let cs' := (logRead (ctrial sim (.compExch rs b) v cs).2).2
+    EInv cs' ∧ (logRead (ctrial sim (.compExch rs b) v cs).2).1 = energy cs'.m.atoms := by
+  have hna : (trial sim (.compExch rs b) false cs.m).2.atoms = cs.m.atoms := by
+    rcases hdir with h | ⟨h, L, hL, hlen⟩
+    · exact compExch_insertion_not_accepted_restores sim he rs b cs.m hinv h
+    · exact compExch_deletion_not_accepted_restores sim he rs b cs.m hinv L hL hlen h
+  apply einv_trial_grand_of sim he (.compExch rs b) v cs heinv
+  · intro hf
+    simp only [trial, hf, Bool.false_eq_true, if_false] at hna
+    exact hna
+  · intro hok
+    simp only [trial, hok, if_true, Bool.false_eq_true, if_false] at hna
+    exact hna
 
 end MC
